@@ -250,7 +250,7 @@ type someStruct struct {
 	b string
 }
 
-var otherNames = []string{"[]int", "struct", "chan", "func", "typed-nil-ptr", "named-map", "uint8", "float32", "[]interface{}", "map[string]int", "uint64", "nil-slice", "ptr-to-map", "complex128", "int16", "uint", "map[string]string", "[]interface{} of 20", "named-bool", "[]string of 12", "named-string", "named-int", "[]byte holding a version", "[]byte holding text", "*bool", "*named-bool", "*string", "[]string not in order", "[]interface{} with nil inside", "uint64 above MaxInt64", "max uint", "max uintptr", "int8", "[]byte holding upper-case ASCII", "yaml-shaped map with a list of maps", "uint32"}
+var otherNames = []string{"[]int", "struct", "chan", "func", "typed-nil-ptr", "named-map", "uint8", "float32", "[]interface{}", "map[string]int", "uint64", "nil-slice", "ptr-to-map", "complex128", "int16", "uint", "map[string]string", "[]interface{} of 20", "named-bool", "[]string of 12", "named-string", "named-int", "[]byte holding a version", "[]byte holding text", "*bool", "*named-bool", "*string", "[]string not in order", "[]interface{} with nil inside", "uint64 above MaxInt64", "max uint", "max uintptr", "int8", "[]byte holding upper-case ASCII", "yaml-shaped map with a list of maps", "uint32", "[2]int array", "[16]byte array", "[0]bool array", "pointer to an array"}
 
 func mkOther(tag int) interface{} {
 	switch tag % len(otherNames) {
@@ -336,6 +336,14 @@ func mkOther(tag int) interface{} {
 		return map[interface{}]interface{}{"name": "ann", 7: 1, "emails": []interface{}{map[interface{}]interface{}{"addr": "a@b"}, "x"}}
 	case 35:
 		return uint32(7)
+	case 36:
+		return [2]int{1, 2}
+	case 37:
+		return [16]byte{1, 2, 3}
+	case 38:
+		return [0]bool{}
+	case 39:
+		return &[2]int{1, 2}
 	default:
 		return uint(7)
 	}
